@@ -121,15 +121,33 @@ def compare_globals(ast, p, sem=None):
     return fails
 
 
-def check(ast):
+END_COMMENT = "  # End of it; the End"
+
+
+def check(ast, entry="string"):
+    """entry: 'string' (from_string), 'file' (the file-name constructor), 'file+comments' (file, every line followed
+    by a comment that contains the word End: the file constructor filters the End line by its text)."""
     text = decmodel.render(ast)
     try:
-        p = decobs.parse_text(text)
+        if entry == "string":
+            p = decobs.parse_text(text)
+        else:
+            import os
+            import tempfile
+            if entry == "file+comments":
+                text = "\n".join(ln + END_COMMENT if ln.strip() else ln for ln in text.split("\n"))
+            fd, path = tempfile.mkstemp(suffix=".dec", prefix="c07_")
+            try:
+                with os.fdopen(fd, "wb") as f:
+                    f.write(text.encode("utf8"))
+                p = decobs.parse_files([path])
+            finally:
+                os.unlink(path)
     except Exception as e:  # noqa: BLE001
-        return [(f"parse-exception:{type(e).__name__}", f"{e!s:.300}\n{text}")]
+        return [(f"parse-exception:{type(e).__name__}" + ("" if entry == "string" else "@" + entry), f"{e!s:.300}\n{text}")]
     fails = compare_globals(ast, p)
     if fails:
-        fails = [(s, d + "\n" + text) for s, d in fails]
+        fails = [(s + ("" if entry == "string" else "@" + entry), d + "\n" + text) for s, d in fails]
     return fails
 
 
@@ -169,9 +187,10 @@ def run_file_history(hist):
 def work(items):
     fails, outs = [], set()
     for origin, ndev, ast in items:
-        f = check(ast)
+        entry = origin[-1] if origin and origin[-1] in ("file", "file+comments") else "string"
+        f = check(ast, entry)
         for sig, d in f:
-            fails.append(("ast", {"ast": ast, "origin": origin}, sig, d, ndev))
+            fails.append(("ast", {"ast": ast, "origin": origin, "entry": entry}, sig, d, ndev))
         outs.add("F" if f else short_hash({k: v for k, v in decmodel.semantics(ast).items() if k != "tables"}))
     return {"fails": fails, "outcomes": outs, "traces": len(items)}
 
@@ -180,7 +199,7 @@ def exec_case(kind, payload):
     if kind == "files":
         from mc.core import run_forked
         return run_forked(run_file_history, tuple(tuple(o) for o in payload["history"]))["fails"]
-    return check(payload["ast"])
+    return check(payload["ast"], payload.get("entry", "string"))
 
 
 def photos_sequences(maxn):
@@ -233,6 +252,12 @@ def run(ctx):
     ctx.count(states=stats["nodes"] + len(ph), transitions=stats["choices"] + sum(len(a) for _o, _n, a in ph))
     ctx.part("dbe", scenarios=n_dbe, deviation_bound=bound, per_dimension_max=stats["per_dimension_max"])
     ctx.part("photos-sequences", files=len(ph), max_flags=4 if ctx.thorough else 3, complete=True)
+    # the other entry point: the same scenarios (<= 1 deviation, all PHOTOS sequences) through the file-name constructor,
+    # plain and with a comment containing the word End after every line
+    small = [(o, nd, a) for o, nd, a in items if nd <= 1]
+    via_file = [(list(o) + [e], nd, a) for o, nd, a in small for e in ("file", "file+comments")]
+    run_tasks(ctx, work, [via_file[i:i + 40] for i in range(0, len(via_file), 40)])
+    ctx.part("file-constructor-entry", scenarios=len(small), variants=["file", "file+comments"])
     # complete sweeps, packed (names are disjoint by construction) and unpacked
     for name, sweep, per in (("labels", list(label_sweep()), 40), ("numeric-forms", list(numeric_sweep()), 27)):
         packed = []
@@ -240,6 +265,7 @@ def run(ctx):
             grp = sweep[i:i + per]
             packed.append((["pack", name, i], 0, [st for _o, a in grp for st in a]))
         single = [(o, 0, a) for o, a in sweep]
+        packed += [(list(o) + [e], nd, a) for o, nd, a in packed for e in ("file", "file+comments")]
         run_tasks(ctx, work, [packed[i:i + 2] for i in range(0, len(packed), 2)])
         run_tasks(ctx, work, [single[i:i + 40] for i in range(0, len(single), 40)])
         ctx.count(states=len(sweep), transitions=sum(len(a) for _o, a in sweep))
